@@ -151,6 +151,11 @@ def finish(prop, tier, seed, level, stats, errors, t0, rule, assumptions, replay
                     res = ["HarnessError: %s" % e]
                 ok.append(any((not isinstance(r, str)) and r["oracle"] == v["oracle"] for r in res))
             if not all(ok):
+                if (extra or {}).get("flaky_is_violation") and v["oracle"].endswith(".repro"):
+                    # for the reproducibility property a failure that does not reproduce IS the failure
+                    v = dict(v, message="(not reproducible on replay) " + v["message"])
+                    new_viol.append(v)
+                    continue
                 flaky.append(v)
                 continue
         kf = match_known(prop, v, known)
@@ -213,7 +218,7 @@ def finish(prop, tier, seed, level, stats, errors, t0, rule, assumptions, replay
         "harness_errors": errors[:5],
     }
     if extra:
-        cov.update({k: v for k, v in extra.items() if k != "crashes_ok"})
+        cov.update({k: v for k, v in extra.items() if k not in ("crashes_ok", "flaky_is_violation")})
     ev = {"property_id": prop, "tier": tier, "seed": int(seed), "level": level, "coverage": _jsonable(cov),
           "assumptions": assumptions, "wall_s": round(time.time() - t0, 2), "violations": len(new_viol)}
     with open(os.path.join(EVID, "%s.json" % prop), "w") as f:
